@@ -197,7 +197,7 @@ Definition b_leg_done (d : db) (okc : list cmd) (k : tkey) (ct : task) : bool :=
      | Some t => (t_kind t =? KindReplicaReplace) && t_embedded_leader_transfer t && (t_phase t =? PhaseVerifyNewLeader)
      | None => false
      end
-  && (t_phase ct =? PhaseAddLearner) && negb (t_embedded_leader_transfer ct).
+  && negb (post_commit_phase (t_phase ct)).
 
 Definition b_adv_moved (d : db) (okc : list cmd) (k : tkey) (ct : task) : bool :=
   existsb is_claim_advance (b_mine okc k)
@@ -315,11 +315,11 @@ Section MarkStep.
           -- fin.
           -- intros Dz _ _. destruct (Dz k t0) as [Dr _]; [rewrite (trans_key _ _ Hh), Hk; reflexivity|exact Hp|exact P0|].
              rewrite Rs in Dr. discriminate.
-        * rewrite Pc, Na, (post_not_addlearner _ Pc). cbn [andb orb negb]. rewrite !andb_false_r. cbn [andb].
+        * rewrite Pc, Na. cbn [andb orb negb]. rewrite !andb_false_r. cbn [andb].
           split; [split|]; fin.
         * assert (Na : is_abort c = false) by (destruct c; try discriminate Lc; reflexivity).
           assert (Pc : post_commit_phase (t_phase ct) = false) by (apply N.eqb_eq in L4; rewrite L4; reflexivity).
-          rewrite Na, Lc, L1, L2, L3, L4, L5, Pc. cbn [andb orb negb].
+          rewrite Na, Lc, L1, L2, L3, Pc. cbn [andb orb negb].
           split; [split|].
           -- intros _ _. left. reflexivity.
           -- fin.
